@@ -59,6 +59,25 @@ REPRESENTATIVES = {
     "break": b"\xff",
     "reserved28": b"\x1c",
 }
+
+
+def _share_bomb(levels: int, leaf: bytes) -> bytes:
+    """CBOR value sharing (tags 28 / 29): `levels` arrays, each holding two references to the one before.  A few
+    bytes per level on the wire; 2^levels copies of the leaf once anything re-encodes the decoded value."""
+    items = [cborr.Tag(28, [cborr.Raw(leaf)])]
+    for i in range(1, levels):
+        items.append(cborr.Tag(28, [cborr.Tag(29, i - 1), cborr.Tag(29, i - 1)]))
+    return cborr.enc(items)
+
+
+REPRESENTATIVES.update({
+    "shared_pair": cborr.enc([cborr.Tag(28, [1, 2]), cborr.Tag(29, 0)]),
+    "shared_bomb_containers": _share_bomb(17, b"\x70" + b"A" * 16),
+    # one long string referenced many times: expansion is linear per reference, i.e. quadratic in the input
+    "shared_long_string": cborr.enc([cborr.Tag(28, "S" * 3000)] + [cborr.Tag(29, 0)] * 1500),
+    "tag28_unused": cborr.enc(cborr.Tag(28, [0])),
+    "tag29_dangling": cborr.enc(cborr.Tag(29, 5)),
+})
 REP_NAMES = sorted(REPRESENTATIVES)
 
 
